@@ -64,6 +64,13 @@ fn menu() -> Vec<Expr> {
     for f in ["../f", "./f", ".f", "/f", "d//f", "d/f", "d/./f", "f/", "f\n", "f\0"] {
         m.push(p(Action::FPrint(f.into())));
     }
+    // a file name next to its own escaped spelling (what a string literal of the program would
+    // hold for it): two different files
+    for f in ["a\\b", "a\\\\b", "q\"r", "q\\\"r"] {
+        m.push(p(Action::FPrint(f.into())));
+    }
+    m.push(p(Action::FPrint0("a\\b".into())));
+    m.push(p(Action::FPrintf("q\"r".into(), vec![Fmt::Field(Field::Name)])));
     // a name that ends in the other action's terminator
     m.push(p(Action::FPrintf("f\n".into(), vec![Fmt::Field(Field::Name)])));
     m.push(p(Action::FPrintf("f\0".into(), vec![Fmt::Field(Field::Name)])));
